@@ -15,9 +15,9 @@ ID = "C19"
 LEVEL = "exploration"
 RULE = (
     "case = operation sequence over {create, get, update activity, delete, advance clock, cleanup(max_age incl. exact idle-time boundaries +-1 and the default), "
-    "list+mutate (add/remove/clear the returned dict), clear, initialize through ProtocolHandler, dispatch ping/unknown method with known/unknown/deleted session id} "
+    "list+mutate (add/remove/clear the returned dict), clear, initialize through ProtocolHandler, dispatch ping / a registered method whose handler succeeds or raises / an unknown method with known/unknown/deleted session id} "
     "interpreted against the real store (time.time in the session module replaced by a controlled integer clock) and a dict model, compared after every step; "
-    "Hypothesis sequences up to 60 (quick) / 200 (thorough) steps, a Hypothesis RuleBasedStateMachine whose rules draw live sessions from a bundle (50 / 120 steps per run), plus all sequences of length<=4 (quick) / <=5 (thorough) over a 15-operation alphabet on a 3-session universe; "
+    "Hypothesis sequences up to 60 (quick) / 200 (thorough) steps, a Hypothesis RuleBasedStateMachine whose rules draw live sessions from a bundle (50 / 120 steps per run), plus all sequences of length<=4 (quick) / <=5 (thorough) over a 16-operation alphabet on a 3-session universe; "
     "non-trivial = sequence contains a cleanup at an exact boundary, or update/delete/get after delete/expiry, or a list mutation; distinct = distinct sequence"
 )
 ASSUMPTIONS = [
@@ -59,6 +59,15 @@ def check(case: Dict[str, Any]) -> Outcome:
     memmod.time = clock  # type: ignore
     try:
         handler = ProtocolHandler(ServerInfo(name="s", version="1"), ServerCapabilities())
+
+        async def _boom(message, session_id):
+            raise RuntimeError("handler failed")
+
+        async def _fine(message, session_id):
+            return handler.create_response(getattr(message, "id", None), {"ok": True}), None
+
+        handler.register_method("boom/raise", _boom)  # a registered method whose handler fails (answered with -32603)
+        handler.register_method("fine/ok", _fine)
         store = handler.session_manager
         model: Dict[str, Dict[str, Any]] = {}
         ever: List[str] = []  # every id ever created (incl. deleted / expired)
@@ -224,7 +233,8 @@ def check(case: Dict[str, Any]) -> Outcome:
 
                 run_virtual(go2)
                 if sid in model:
-                    if method == "ping":
+                    if method in ("ping", "boom/raise", "fine/ok"):
+                        # a request for a registered method is activity of that session, whether its handler succeeds or not
                         model[sid]["last_activity"] = float(clock.now)
                     else:
                         real = store.get_session(sid)
@@ -260,7 +270,7 @@ _op = st.one_of(
     st.tuples(st.just("list_mutate"), st.sampled_from(["add", "remove", "clear"])).map(list),
     st.just(["clear"]),
     st.tuples(st.just("init"), st.sampled_from(VERSIONS + [None, "draft", 7]), st.integers(0, 2)).map(list),
-    st.tuples(st.just("dispatch"), st.sampled_from(["ping", "ping", "nope/method"]), _ref).map(list),
+    st.tuples(st.just("dispatch"), st.sampled_from(["ping", "ping", "nope/method", "boom/raise", "fine/ok"]), _ref).map(list),
 )
 
 
@@ -275,7 +285,7 @@ def job_hyp(col: Collector, seed: int, tier: str, shard: int, n: int, max_len: i
 ALPHABET: List[List[Any]] = [
     ["create", 1, 0], ["get", 0], ["get", 1], ["update", 0], ["update", 1], ["delete", 0], ["delete", 1],
     ["advance", 1], ["advance", 60], ["cleanup", 60], ["cleanup", 0], ["cleanup", ["idle_of", 0, 0]],
-    ["list_mutate", "remove"], ["list_mutate", "add"], ["dispatch", "ping", 0],
+    ["list_mutate", "remove"], ["list_mutate", "add"], ["dispatch", "ping", 0], ["dispatch", "boom/raise", 0],
 ]
 
 
@@ -363,7 +373,7 @@ def job_machine(col: Collector, seed: int, tier: str, shard: int, n: int, steps:
         def list_and_mutate(self, how):
             self.ops.append(["list_mutate", how])
 
-        @rule(s=sessions, method=st.sampled_from(["ping", "ping", "nope/method"]))
+        @rule(s=sessions, method=st.sampled_from(["ping", "ping", "nope/method", "boom/raise", "fine/ok"]))
         def dispatch(self, s, method):
             self.ops.append(["dispatch", method, s])
 
